@@ -33,6 +33,7 @@ structure Arith (α : Type) where
   sqrt2 : α               -- math.Sqrt2
   c1001 : α               -- the literal 1.001
   fmax : α → α → α        -- math.Max
+  hypot1 : α → α          -- math.Hypot(x, 1)
 
 /-- scalar + matrix/rectangle operations (util.go) + `Path.checkDash` (path.go, owned by C05) -/
 structure Ops (α : Type) extends Arith α where
@@ -54,6 +55,8 @@ structure Ops (α : Type) extends Arith α where
   isSquareCap : Nat → Bool
   /-- `Limit` of the joiner identities that are a `MiterJoiner` or `ArcsJoiner` with a finite limit -/
   joinLimit : Nat → Option α
+  /-- which of those joiner identities clip (`GapJoiner == nil`: MiterClipJoin) -/
+  joinClips : Nat → Bool
   /-- `p.checkDash(offset, dashes)` as a function of the path's length -/
   checkDash : α → List α → α → List α × Bool
 
@@ -267,12 +270,17 @@ def rectEmpty (o : Ops α) (r : Rct α) : Bool :=
   o.equal (o.sub r.x1 r.x0) o.zero || o.equal (o.sub r.y1 r.y0) o.zero
 
 /-- how far `Fit` assumes the stroke to reach from the path: half the width, times √2 for square
-caps (their corners), and at least `max(Limit, 1.001)` half-widths for miter/arcs joins (their tips) -/
+caps (their corners), and at least `max(Limit, 1.001)` half-widths for miter/arcs joins (their tips),
+`hypot(max(Limit, 1.001), 1)` for a clipping miter join (the corners of the cut) -/
 def strokeExtent (o : Ops α) (s : Style α) : α :=
   let hw := o.div s.width o.two
   let hw := if o.isSquareCap s.cap then o.mul hw o.sqrt2 else hw
   match o.joinLimit s.join with
-  | some lim => o.fmax hw (o.div (o.mul (o.fmax lim o.c1001) s.width) o.two)
+  | some lim =>
+    let lim := o.fmax lim o.c1001
+    -- the corners of a clipped miter lie up to one half width beside the bisector
+    let lim := if o.joinClips s.join then o.hypot1 lim else lim
+    o.fmax hw (o.div (o.mul lim s.width) o.two)
   | none => hw
 
 def itemBounds (o : Ops α) : Item α → Rct α
@@ -337,6 +345,14 @@ def Ctx.baseMatrix (o : Ops α) (c : Ctx α) (x y : α) : Mat α :=
 def Ctx.emit (c : Ctx α) (call : Call α) : Ctx α :=
   { c with emitted := c.emitted ++ [call], cv := c.cv.render call }
 
+/-- what `DrawPath` makes of the dash pattern for one path of length `len` under stroke width `w`:
+`checkDash` is asked in the units the renderers use (pattern and offset scaled by the stroke width,
+`ScaleDash`); if dashing is needed the canonical *unscaled* pattern is recorded, otherwise none;
+the Bool says whether the stroke paint is kept -/
+def drawDashes (o : Ops α) (w off : α) (dashes : List α) (len : α) : List α × Bool :=
+  let r := o.checkDash (o.mul off w) (dashes.map (fun d => o.mul d w)) len
+  (if r.1.isEmpty then r.1 else (dashCanonical o.toArith off dashes).2, r.2)
+
 /-- the loop of DrawPath: the code works on one copy `style` of the current style; per path it
 overwrites `Dashes` with the result of checkDash, clears `Stroke` when the path gets no ink, and
 restores `Stroke` after the renderer call — so every path is drawn from the same initial style -/
@@ -344,7 +360,7 @@ def drawPathLoop (o : Ops α) (off : α) (dashes : List α) (m : Mat α) :
     Style α → List (PathRef α) → Ctx α → Ctx α
   | _, [], c => c
   | style, p :: ps, c =>
-    let r := o.checkDash off dashes p.len
+    let r := drawDashes o style.width off dashes p.len
     let st := { style with dashes := r.1, stroke := if r.2 then style.stroke else Paint.none }
     drawPathLoop o off dashes m style ps (c.emit ⟨.path p st, m⟩)
 
